@@ -117,7 +117,7 @@ def run(prog, rep, tier):
     n2 = rep.absorb_engine(E2, rule='U1-no-panic')
     rep.floor('Position::from_str obligations', n2, 8)
     consts += E2.const_checks
-    for kind, lit, good, site in sorted(set(consts)):
+    for kind, lit, good, site in sorted(set(c_[:4] for c_ in consts if c_[0] in ('regex', 'url'))):
         rep.check(good, 'U1-constant-argument', '%s-literal:%s' % (kind, lit), site,
                   '%s literal %r is not accepted by the literal rule' % (kind, lit), sample={'literal': lit, 'kind': kind, 'ok': good})
     # the airport table behind Lazy: serde_json::from_str(include_str!(..)).unwrap()
